@@ -204,7 +204,7 @@ pub fn spec() -> PropSpec {
     PropSpec {
         id: "C16",
         level: "exploration",
-        rule: "2..4 multi-chunk messages (1..6 chunks each, chunk size 1..400) on distinct chunk stream ids, encoded by RefChunkEnc, preceded by a sequential prefix from the palette-based foreign generator on several chunk stream ids (incl. pairs that alias under plausible csid-decoding mistakes) so that compressed headers referring back across messages on other chunk streams are frequent; their chunks are merged by a generated choice sequence that keeps each message's own chunks in order (sub-check 'interleaved'), or sent message by message (sub-check 'overlap-free', the part of the space the recorded finding does not touch); sub-check 'many-chunk-streams': a prefix on 63..4097 distinct chunk stream ids followed by compressed headers on older ones; generated partition. Expected deliveries come from RefChunkDec. Non-trivial = >= 2 group messages and at least one multi-chunk message; distinct = distinct case. The shared-reassembly-buffer defect this check first reported (D11) is repaired in /repo (c2ab1c5); the signature classification stays in the code so that a return of it is named, but nothing is set aside any more: every interleaving is enforced",
+        rule: "2..4 multi-chunk messages (1..6 chunks each, chunk size 1..400) on distinct chunk stream ids, encoded by RefChunkEnc, preceded by a sequential prefix from the palette-based foreign generator on several chunk stream ids (incl. pairs that alias under plausible csid-decoding mistakes) so that compressed headers referring back across messages on other chunk streams are frequent; their chunks are merged by a generated choice sequence that keeps each message's own chunks in order (sub-check 'interleaved'), or sent message by message (sub-check 'overlap-free'); sub-check 'many-chunk-streams': a prefix on 63..4097 distinct chunk stream ids followed by compressed headers on older ones; generated partition. Expected deliveries come from RefChunkDec; in addition the stream is fed cut at every message end and the k-th message must be out after the k-th cut (delivery timing). Non-trivial = >= 2 group messages and at least one multi-chunk message; distinct = distinct case. The shared-reassembly-buffer defect this check first reported (D11) is repaired in /repo (c2ab1c5); the signature classification stays in the code so that a return of it is named, but nothing is set aside any more: every interleaving is enforced",
         assumptions: vec![
             "RefChunkDec/RefChunkEnc transcribe RTMP 1.0 section 5.3.1 (per-chunk-stream reassembly)",
             "D11 (shared reassembly buffer) is fixed; a failure with its old signature (everything before the first overlap point right, divergence at or after it) is a violation like any other",
